@@ -124,6 +124,7 @@ func Build(files map[string][]ref.Node, ctx, globals map[string]ref.V, key, labe
 	}
 	run := func(perLoop bool) (string, error) {
 		it := ref.NewInterp(merged, files)
+		it.Globals = globals
 		it.IfChangedPerLoop = perLoop
 		return it.Render(files["/main"])
 	}
